@@ -165,6 +165,25 @@ def execute(case):
             v('construct-raised', f'constructor raised {ex.construct_error!r}')
             return {'violations': viol, 'nontrivial': True, 'classes': ['class:' + klass], 'history': {'fault': fault}}
         ex.run_schedule()
+        probe = None
+        if klass == 'requester' and w.fault_fired is not None:
+            # "leaves the process live and controllable": a further pause must still work, then play it again
+            ex.drain()
+            if not ex.proc.has_terminated():
+                was_paused = ex.proc.paused
+                rec = ex.event(['pause', 'probe-after-fault'], who='probe')
+                ex.drain()
+                for _ in range(6):
+                    if ex.proc.paused or ex.proc.has_terminated():
+                        break
+                    with ex.loop.as_running():
+                        if not ex.world.open_all_gates():
+                            break
+                    ex.drain()
+                probe = {'raised': rec['raised'], 'paused': ex.proc.paused, 'terminated': ex.proc.has_terminated(), 'was_paused': was_paused, 'state': ex.state}
+                fut = rec.get('_fut')
+                if fut is not None and fut.done() and not fut.cancelled() and fut.exception() is not None:
+                    probe['raised'] = repr(fut.exception())
         ex.settle(play=True, resumes=[31, 32, 33, 34], open_gates=True)
         fired = w.fault_fired
         views = ex.views()
@@ -209,6 +228,11 @@ def execute(case):
                 fut = rec.get('_fut')
                 if fut is not None and fut.done() and not fut.cancelled() and fut.exception() is exc:
                     reported = True
+            if probe is not None:
+                if probe['raised']:
+                    v('uncontrollable-after-pause-hook-fault', f"a later pause() failed: {probe['raised']}")
+                elif not probe['paused'] and not probe['terminated']:
+                    v('uncontrollable-after-pause-hook-fault', f"a later pause() never took effect (state {probe['state']})")
             if not reported:
                 v('pause-hook-fault-not-reported', 'no pause()/play() call raised the fault or returned a future carrying it')
             if views['state'] == 'excepted' and views['exception'][1] is exc:
